@@ -293,6 +293,9 @@ fn run_iv(c: &mut Ctx) {
     match r_try {
         Ok(t) => {
             c.check("Interval::try_new", "Err iff a bound is NaN", "construct", t.is_none() == nan, || format!("a={a} b={b}"));
+            if let Some(t) = t {
+                c.check("Interval::try_new", "bounds ordered", "construct", t.min <= t.max && t.min == a.min(b) && t.max == a.max(b), || format!("{t:?} from a={a} b={b}"));
+            }
         }
         Err(_) => {
             c.check("Interval::try_new", "no-panic", "construct", false, || "panic".into());
